@@ -7,6 +7,15 @@ import Flamego.Proofs.Codec
 namespace Flamego.Access
 open Flamego
 
+/-! ### the bit sizes the model reads from context.go (Gen/ConstFacts): their documented values
+
+  `QueryInt` passes 0 (= IntSize), `QueryInt64` and `ParamInt64` pass 64.  The accessor theorems of
+  C18 go through these lemmas, so a changed bit size in context.go breaks them by name. -/
+
+@[simp] theorem queryIntBits_eq : queryIntBits = intSize := rfl
+@[simp] theorem queryInt64Bits_eq : queryInt64Bits = 64 := rfl
+@[simp] theorem paramInt64Bits_eq : paramInt64Bits = 64 := rfl
+
 theorem cut_none {sep : UInt8} {l : Bytes} (h : ∀ b ∈ l, b ≠ sep) : cut sep l = (l, []) := by
   induction l with
   | nil => rfl
